@@ -1242,7 +1242,9 @@ class C17(DirectSpec):
     ]
 
     def floors(self, tier):
-        return [(f"cell.{m}.{b}.{pc}", 1, "cell populated") for m in ("clip", "reflect", "toroidal") for b in gen.BOX_CLASSES for pc in C17_POINT_CLASSES]
+        fl = [(f"cell.{m}.{b}.{pc}", 1, "cell populated") for m in ("clip", "reflect", "toroidal") for b in gen.BOX_CLASSES for pc in C17_POINT_CLASSES]
+        fl += [(f"cell.{m}.huge.{pc}", 1, "box whose range is finite while twice the range is not") for m in ("reflect", "toroidal") for pc in ("slightly-outside", "ulp-outside-lower", "ulp-outside-upper")]
+        return fl
 
 
 @register
